@@ -31,7 +31,7 @@ RULE = ("(A) value mapping: input dtype {u8,i8,i16,u16,i32,u32,f32,f64} x "
         "voxels; (C) {raw, cseg 8^3, cseg 2^3, jpeg} x {deep/flat x gzip/"
         "no-gzip, sharded (1,1,0), (0,0,0), (2,1,1), (1,0,1) raw/gzip} on 5 "
         "shapes. "
-        "Quick: A without mmap duplicates on 3 input types per target, B "
+        "Thorough also reads .nii.gz inputs. Quick: A without mmap duplicates on 3 input types per target, B "
         "with 3 chunk sizes on 14 shapes, C in full. Non-trivial: >= 2 "
         "chunks, or a dtype change, or a scaling applied.")
 ASSUMPTIONS = [
@@ -301,6 +301,14 @@ def cases(tier):
                                 scaling=list(sc) if sc else None,
                                 ignore_scaling=ign,
                                 minmax=list(mm) if mm else None, mmap=mmap))
+    # compressed input files (.nii.gz), thorough only
+    if tier == "thorough":
+        for c in list(out):
+            if c["kind"] == "value" and c["scaling"] in (None, [0.5, 1.0]) \
+                    and c["minmax"] is None:
+                c2 = dict(c)
+                c2["gz"] = True
+                out.append(c2)
     # RGB under the value-mapping options
     for ign in (False, True):
         for mm in (None, (0.0, 510.0)):
